@@ -296,7 +296,11 @@ pub fn gen_c07(r: &mut Rng, id: u64, thorough: bool) -> Value {
             let p = r.pick(&pnames).to_string();
             ops.push(json!({"op": "session", "s": next_sid, "profile": p, "txn": false}));
             ops.push(json!({"op": "ping", "s": next_sid}));
-            if exists.contains(&p) { open.push((next_sid, p)); } else {
+            if exists.contains(&p) {
+                open.push((next_sid, p));
+                // at most 6 sessions stay open (each holds a pool connection; beyond the pool size an acquire waits 30 s)
+                if open.len() > 6 { let (old, _) = open.remove(0); ops.push(json!({"op": "drop", "s": old})); }
+            } else {
                 // a profile that does not exist (possibly removed earlier): nothing may be readable or writable through it
                 if r.chance(1, 2) {
                     ops.push(json!({"op": "insert", "s": next_sid, "k": 2, "c": "c1", "n": "ghost", "v": "aa", "t": null, "e": null}));
